@@ -10,7 +10,8 @@ def Clean (s : St) : Prop := s.pC = none ∧ s.bonds = []
 
 theorem runPrims_cons_none {s s1 : St} {p : Call} (ps : List Call) (h : prim s p = (s1, none)) :
     (runPrims s (p :: ps)).1 = (runPrims s1 ps).1 ∧ (runPrims s (p :: ps)).2.1 = (runPrims s1 ps).2.1 := by
-  simp only [runPrims, h]; exact ⟨rfl, rfl⟩
+  simp only [runPrims, h]
+  exact ⟨trivial, trivial⟩
 
 /-- `orthogonalize_site_(n, 'last')` followed by `absorb_central_('last')` on a centre-free chain -/
 theorem orth_absorb_last {s : St} (hc : Clean s) (n : Int) (hn : 0 ≤ n ∧ n < (s.N : Int)) (nm : Bool) :
@@ -23,21 +24,37 @@ theorem orth_absorb_last {s : St} (hc : Clean s) (n : Int) (hn : 0 ≤ n ∧ n <
   obtain ⟨hp, hb⟩ := hc
   have hs : s.isSite n = true := (isSite_iff s n).2 hn
   have ho : orth s n .last nm =
-      ({ ({ s with pC := some (n, n + 1) } : St).setG n G.L with bonds := [(n, n + 1)], unit := nm }, none) := by
-    simp [orth, hp, hs, hb]
+      ({ N := s.N, pC := some (n, n + 1), bonds := [(n, n + 1)],
+         gauge := fun i => if i = n then G.L else s.gauge i, unit := nm }, none) := by
+    simp [orth, hp, hs, hb, St.setG]
   rw [ho]
-  simp only [absorb, St.setG, List.mem_singleton, if_true, absorbTarget, St.updG, St.isSite]
-  by_cases c : n + 1 ≤ (s.N : Int) - 1
-  · have c' : ¬ (n + 1 > (s.N : Int) - 1) := by omega
-    have h1 : 0 ≤ n + 1 := by omega
-    have h2 : n + 1 < (s.N : Int) := by omega
-    have h3 : ¬ n < 0 := by omega
-    refine ⟨rfl, by simp [c', h1, h2], ⟨rfl, by simp⟩, rfl, rfl, fun i => ?_⟩
-    simp only [c', c, reduceCtorEq, false_and, or_self, if_false, h1, h2, h3, decide_true, decide_false,
-      Bool.and_self, Bool.or_self, Bool.not_false, true_and, and_true]
-  · have c' : n + 1 > (s.N : Int) - 1 := by omega
-    refine ⟨rfl, by simp [c', hn.1, hn.2], ⟨rfl, by simp⟩, rfl, rfl, fun i => ?_⟩
-    simp [c', c]
+  have ht : absorbTarget s.N Dir.last n (n + 1) = if n + 1 ≤ (s.N : Int) - 1 then n + 1 else n := by
+    unfold absorbTarget
+    by_cases c : n + 1 ≤ (s.N : Int) - 1
+    · have : ¬ (n + 1 > (s.N : Int) - 1) := by omega
+      simp [c, this]
+    · have : (n + 1 > (s.N : Int) - 1) := by omega
+      simp [c, this]
+  refine ⟨rfl, ?_, ⟨?_, ?_⟩, ?_, ?_, fun i => ?_⟩
+  · simp only [absorb, List.mem_singleton, if_true, ht, St.isSite]
+    by_cases c : n + 1 ≤ (s.N : Int) - 1
+    · have h1 : 0 ≤ n + 1 := by omega
+      have h2 : n + 1 < (s.N : Int) := by omega
+      simp [c, h1, h2]
+    · simp [c, hn.1, hn.2]
+  · simp [absorb, St.updG]
+  · simp [absorb, St.updG]
+  · simp [absorb, St.updG]
+  · simp [absorb, St.updG]
+  · simp only [absorb, List.mem_singleton, if_true, ht, St.isSite, St.updG]
+    by_cases c : n + 1 ≤ (s.N : Int) - 1
+    · have h1 : 0 ≤ n + 1 := by omega
+      have h2 : n + 1 < (s.N : Int) := by omega
+      have h3 : ¬ n < 0 := by omega
+      have h4 : ¬ (n + 1 > (s.N : Int) - 1) := by omega
+      simp [c, h1, h2, h3, h4]
+    · have h4 : (n + 1 > (s.N : Int) - 1) := by omega
+      simp [c, h4]
 
 /-- `orthogonalize_site_(n, 'first')` followed by `absorb_central_('first')` on a centre-free chain -/
 theorem orth_absorb_first {s : St} (hc : Clean s) (n : Int) (hn : 0 ≤ n ∧ n < (s.N : Int)) (nm : Bool) :
@@ -50,22 +67,37 @@ theorem orth_absorb_first {s : St} (hc : Clean s) (n : Int) (hn : 0 ≤ n ∧ n 
   obtain ⟨hp, hb⟩ := hc
   have hs : s.isSite n = true := (isSite_iff s n).2 hn
   have ho : orth s n .first nm =
-      ({ ({ s with pC := some (n - 1, n) } : St).setG n G.R with bonds := [(n - 1, n)], unit := nm }, none) := by
-    simp [orth, hp, hs, hb]
+      ({ N := s.N, pC := some (n - 1, n), bonds := [(n - 1, n)],
+         gauge := fun i => if i = n then G.R else s.gauge i, unit := nm }, none) := by
+    simp [orth, hp, hs, hb, St.setG]
   rw [ho]
-  simp only [absorb, St.setG, List.mem_singleton, if_true, absorbTarget, St.updG, St.isSite]
   have c0 : ¬ (n > (s.N : Int) - 1) := by omega
-  by_cases c : 1 ≤ n
-  · have h1 : 0 ≤ n - 1 := by omega
-    have h2 : n - 1 < (s.N : Int) := by omega
-    have h3 : ¬ n - 1 < 0 := by omega
-    refine ⟨rfl, by simp [c0, h1, h2], ⟨rfl, by simp⟩, rfl, rfl, fun i => ?_⟩
-    simp only [c0, c, h1, h2, h3, true_and, or_false, if_true, decide_true, decide_false, Bool.and_self,
-      Bool.or_self, Bool.not_false, and_true]
-  · have h1 : ¬ 0 ≤ n - 1 := by omega
-    have h3 : n - 1 < 0 := by omega
-    refine ⟨rfl, by simp [c0, h1, hn.1, hn.2], ⟨rfl, by simp⟩, rfl, rfl, fun i => ?_⟩
-    simp [c0, c, h1, h3]
+  have ht : absorbTarget s.N Dir.first (n - 1) n = if 1 ≤ n then n - 1 else n := by
+    unfold absorbTarget
+    by_cases c : 1 ≤ n
+    · have : 0 ≤ n - 1 := by omega
+      simp [c, this]
+    · have : ¬ 0 ≤ n - 1 := by omega
+      simp [c, this, c0]
+  refine ⟨rfl, ?_, ⟨?_, ?_⟩, ?_, ?_, fun i => ?_⟩
+  · simp only [absorb, List.mem_singleton, if_true, ht, St.isSite]
+    by_cases c : 1 ≤ n
+    · have h1 : 0 ≤ n - 1 := by omega
+      have h2 : n - 1 < (s.N : Int) := by omega
+      simp [c, h1, h2]
+    · simp [c, hn.1, hn.2]
+  · simp [absorb, St.updG]
+  · simp [absorb, St.updG]
+  · simp [absorb, St.updG]
+  · simp [absorb, St.updG]
+  · simp only [absorb, List.mem_singleton, if_true, ht, St.isSite, St.updG]
+    by_cases c : 1 ≤ n
+    · have h1 : 0 ≤ n - 1 := by omega
+      have h2 : n - 1 < (s.N : Int) := by omega
+      have h3 : ¬ n - 1 < 0 := by omega
+      simp [c, h1, h2, h3, c0]
+    · have h3 : n - 1 < 0 := by omega
+      simp [c, h3]
 
 def canonBody (to : Dir) (nm : Bool) : Int → List Call := fun n => [Call.orth n to nm, Call.absorb to]
 
@@ -93,7 +125,7 @@ theorem loop_last (N : Nat) (nm : Bool) : ∀ (m k : Nat), k + m = N → ∀ s :
   | zero =>
     intro k hk s _ hc hg
     simp only [List.range'_zero, List.map_nil, List.flatMap_nil, runPrims]
-    exact ⟨rfl, hc, fun i h0 h1 => hg i h0 (by omega), fun h => absurd h (by omega)⟩
+    exact ⟨trivial, hc, fun i h0 h1 => hg i h0 (by omega), fun h => absurd h (by omega)⟩
   | succ m ih =>
     intro k hk s hN hc hg
     have hn : 0 ≤ (k : Int) ∧ (k : Int) < (s.N : Int) := by omega
@@ -128,7 +160,7 @@ theorem loop_first (N : Nat) (nm : Bool) : ∀ (k : Nat), k ≤ N → ∀ s : St
   | zero =>
     intro _ s _ hc hg
     simp only [List.range_zero, List.reverse_nil, List.map_nil, List.flatMap_nil, runPrims]
-    exact ⟨rfl, hc, fun i h0 h1 => hg i (by omega) h1, fun h => absurd h (by omega)⟩
+    exact ⟨trivial, hc, fun i h0 h1 => hg i (by omega) h1, fun h => absurd h (by omega)⟩
   | succ k ih =>
     intro hk s hN hc hg
     have hn : 0 ≤ (k : Int) ∧ (k : Int) < (s.N : Int) := by omega
